@@ -69,7 +69,8 @@ Record rules := Rules {
   commit_pick : N -> N -> N;                      (* |sorted match list|, quorum -> position picked *)
   commit_term_ok : N -> N -> bool;                (* term of the entry at the new commit index, current term *)
   entries_need_prev : bool;                       (* get_entries_for_follower sends entries only with a prev entry still in the log *)
-  gap_refused : bool                              (* append_leader_entries refuses an entry that is not the direct successor of the log *)
+  gap_refused : bool;                             (* append_leader_entries refuses an entry that is not the direct successor of the log *)
+  finalize_ok : N -> N -> N -> bool               (* finalize_to: requested height, commit_index, last log index -> accepted *)
 }.
 
 Definition last_info (l : list entry) : N * N :=
@@ -307,7 +308,7 @@ Definition restart (nd : node) : node := Node (term nd) (voted nd) Follower [] (
 
 (* finalize_to: the application marks committed entries as finalized *)
 Definition finalize (nd : node) (h : N) : node :=
-  if N.leb h (commit nd)
+  if finalize_ok ru h (commit nd) (llen (log nd))
   then Node (term nd) (voted nd) (rl nd) (votes nd) (log nd) (commit nd) (in_prevote nd) (prevotes nd) (lvs nd) h (base nd)
   else nd.
 (* create_snapshot + truncate_log (perform_compaction): drop the log up to finalized - trailing, provided the
@@ -404,7 +405,8 @@ Definition std_vote_log_ok (lli llt mli mlt : N) (gok : bool) : bool :=
 
 (* the two acknowledgement rules that have existed in the source *)
 Definition rules_whole_log : rules :=       (* before the repair: whole local length *)
-  Rules (fun _ _ len => len) (fun lc _ _ _ len => N.min lc len) false std_vote_log_ok N.eqb N.sub N.eqb false false.
+  Rules (fun _ _ len => len) (fun lc _ _ _ len => N.min lc len) false std_vote_log_ok N.eqb N.sub N.eqb false false
+        (fun h c _ => N.leb h c).
 Definition rules_verified : rules :=        (* after: only the prefix this request verified *)
   Rules (fun _ ln len => N.min ln len) (fun lc c _ ln len => N.max c (N.min lc (N.min ln len))) true
-        std_vote_log_ok N.eqb N.sub N.eqb true true.
+        std_vote_log_ok N.eqb N.sub N.eqb true true (fun h c _ => N.leb h c).
